@@ -386,7 +386,7 @@ CHECKS["C16"] = {
                                          "statements are built through the validating constructors; Pedersen generator fields are not tampered with here"],
     "level_text": "Feeds the real decoder and verifier tens of thousands of hostile inputs inside child processes (checked build - overflow checks in every crate, since the library's generic code is code-generated in the harness crate, and debug assertions in the library - and the plain release build; Ristretto for the real backend "
                   "assertions, free-module group for step counting): no panic (catch_unwind), no abnormal process exit (abort, stack overflow, allocation failure), largest single allocation and peak live bytes within a linear "
-                  "bound of input size and table size, logical steps within a linear bound; hostile statements include unrelated points, identity commitments (one or all) and repeated commitments against honest proofs. Thorough repeats the Ristretto workload under AddressSanitizer.",
+                  "bound of input size and table size, logical steps within a linear bound; hostile statements include unrelated points, identity commitments (one or all) and repeated commitments against honest proofs; every hostile byte string is also decoded from a buffer that ends at / starts after an inaccessible page (a read outside the slice faults), and every heap block carries a red zone that is checked when it is released (a write past its end is reported). Thorough repeats the Ristretto workload under AddressSanitizer.",
     "level_note": "Held on the executed inputs. A clean sanitizer run is not memory safety; the library has no unsafe code of its own, the sanitizer leg covers the dependencies' unsafe reached from hostile input.",
 }
 
@@ -415,7 +415,7 @@ CHECKS["C18"] = {
     "assumptions": COMMON_ASSUMPTIONS + ["explores the schedules the OS scheduler, harness jitter and ThreadSanitizer produce, not all interleavings", "TSan only understands synchronisation it intercepts; std is rebuilt instrumented (-Zbuild-std) so no uninstrumented library is involved"],
     "level_text": "Runs fixed probe calls after random call histories (including calls that fail half-way through a batch, and histories that construct, keep alive, drop and re-construct large parameter sets "
                   "before a probe that builds each of them afresh and proves over it) and compares every result bit with a virgin process; runs T threads over clones of one parameter object "
-                  "(one shared Arc'd precomputation) against a sequential baseline and reports how many call pairs actually overlapped; races the first use of the once-initialised generator statics in fresh processes; repeats the concurrent legs under ThreadSanitizer, "
+                  "(one shared Arc'd precomputation; prove, verify in three modes, clone, tampered proof, serde round trip) against a sequential baseline and reports how many call pairs actually overlapped; lets T threads make their first calls over clones of a parameter object nobody has used before; races the first use of the once-initialised generator statics in fresh processes; repeats the concurrent legs under ThreadSanitizer, "
                   "where any report is a violation.",
     "level_note": "Held on the observed schedules only. Trusted: ThreadSanitizer, harness baseline.",
 }
@@ -461,7 +461,7 @@ CHECKS["C20"] = {
                                          "Ristretto only: over the free-module group a commitment literally stores blinding factors as coordinates"],
     "level_text": "Interposes on the global allocator of the real prover and verifier and inspects every heap block they release while secrets are live: values, blinding factors, the recovery seed and recovered masks must never be found, "
                   "in an unoptimised build of the library (where temporaries are not elided), in the checked build and in the plain release build; owning types are dropped (also as clones, in Vec and Box) inside armed windows; prover calls that are refused (wrong opening at the first / last position, a promise above the value at the first / middle / last "
-                  "position, too few openings) and verifier calls that fail are windows too; a statement dropped in place must no longer contain its seed. The stack below every window is zeroed first, 64-bit value patterns have "
+                  "position, too few openings) and verifier calls that fail are windows too, as are mask comparisons, clone_from() onto smaller and larger objects, and prove / recover on a worker thread observed through the thread's exit; a statement dropped in place must no longer contain its seed. The stack below every window is zeroed first, 64-bit value patterns have "
                   "every byte >= 0x80 and a value hit must reproduce in two re-runs with other values (DESIGN section 11: stale stack bytes in padding are not a buffer holding a value).",
     "level_note": "Held on the executed windows; scanning cannot see secrets in a transformed representation. The scanner is self-tested in every process with a planted canary.",
 }
